@@ -11,9 +11,12 @@ Definition clean (tk : tokmap) : Prop :=
 Lemma clean_empty : clean (PositiveMap.empty tokrec).
 Proof. split; intro t; unfold tsz, tget; rewrite PositiveMap.gempty; reflexivity. Qed.
 
-Lemma empty_inv tk : clean tk -> Inv (empty_store tk) /\ abs (empty_store tk) = [].
+Lemma clean_pure sid tk : clean tk -> pure (empty_store sid tk).
+Proof. intros [Hh _] t (sd & b & j & R & _). unfold raw in R. cbn in R. rewrite Hh in R. discriminate. Qed.
+
+Lemma empty_inv sid tk : clean tk -> Inv (empty_store sid tk) /\ abs (empty_store sid tk) = [].
 Proof.
-  intros [Hh Hs]. assert (toks (empty_store tk) 1 = []) as T1 by reflexivity.
+  intros [Hh Hs]. assert (toks (empty_store sid tk) 1 = []) as T1 by reflexivity.
   split; [split|reflexivity]; [|reflexivity]. constructor.
   - discriminate.
   - repeat constructor. intros [].
@@ -23,35 +26,33 @@ Proof.
   - intros b [<-|[]] _. split; [split|auto].
     + intros j t H. rewrite T1 in H. destruct j; discriminate.
     + reflexivity.
-  - intros t H. exfalso. apply H. apply Hh.
+  - intros t H. exfalso. apply H. apply free_hnd. apply Hh.
   - exact Hs.
 Qed.
 
-Lemma inv_empty_clean s : Inv s -> abs s = [] -> clean (s_toks s).
+Lemma inv_empty_clean s : Inv s -> pure s -> abs s = [] -> clean (s_toks s).
 Proof.
-  intros [I _] E. split; [|apply (g_sz _ _ I)]. intro t.
-  destruct (t_handle (tget (s_toks s) t)) eqn:Eh; [|reflexivity].
-  exfalso. assert (In t (abs s)) as Hin by (apply (g_hin _ _ I); unfold hnd; rewrite Eh; discriminate).
-  rewrite E in Hin. exact Hin.
+  intros II Hp E. split; [|destruct II as [I _]; apply (g_sz _ _ I)]. intro t.
+  apply (pure_free s t II Hp). rewrite E. intros [].
 Qed.
 
-Theorem from_tokens_spec LF tk ts s' r : 1 <= LF -> clean tk -> NoDup ts ->
-  from_tokens LF tk ts = (s', r) ->
-  r = Ok tt /\ Inv s' /\ abs s' = ts /\ (forall t, txt s' t = t_text (tget tk t)).
+Theorem from_tokens_spec LF sid tk ts s' r : 1 <= LF -> clean tk -> NoDup ts ->
+  from_tokens LF sid tk ts = (s', r) ->
+  r = Ok tt /\ Inv s' /\ abs s' = ts /\ (forall t, txt s' t = t_text (tget tk t)) /\ s_id s' = sid /\ pure s'.
 Proof.
   intros HLF Hc ND H. pose proof Hc as [Hh Hs]. unfold from_tokens in H.
   rewrite existsb_false in H by (intros t _; rewrite Hh; reflexivity).
-  destruct (empty_inv tk Hc) as [[I0 L0] E0].
+  destruct (empty_inv sid tk Hc) as [[I0 L0] E0].
   destruct ts as [|t0 ts0].
-  - injection H as <- <-. split; [reflexivity|]. split; [split; assumption|]. split; [exact E0|reflexivity].
+  - injection H as <- <-. split; [reflexivity|]. split; [split; assumption|]. split; [exact E0|]. split; [reflexivity|]. split; [reflexivity|apply clean_pure; exact Hc].
   - set (ts := t0 :: ts0) in *.
-    destruct (build_blocks LF (length ts) (empty_store tk) 0 ts) as [s1 r1] eqn:EB.
+    destruct (build_blocks LF (length ts) (empty_store sid tk) 0 ts) as [s1 r1] eqn:EB.
     destruct (build_blocks_spec LF HLF _ _ _ _ _ _ (le_n _) ND EB) as (bs & -> & HBB).
-    destruct HBB as (B1 & B2 & B3 & B4 & B5 & B6 & B7 & B8 & B9 & B10 & B11 & B12).
+    destruct HBB as (B1 & B2 & B3 & B4 & B5 & B6 & B7 & B8 & B9 & B10 & B11 & B12 & B13).
     assert (s' = with_len (with_blocks s1 bs) (zlen ts) /\ r = Ok tt) as [-> ->]
       by (injection H as E1 E2; split; symmetry; [exact E1|exact E2]).
     set (sf := with_len (with_blocks s1 bs) (zlen ts)).
-    destruct (seg_replace (fun _ => False) (fun _ => False) (empty_store tk) sf [] [1%positive] bs [] ts I0) as [I' Ea'].
+    destruct (seg_replace (fun _ => False) (fun _ => False) (empty_store sid tk) sf [] [1%positive] bs [] ts I0) as [I' Ea'].
     + reflexivity.
     + discriminate.
     + intros b [].
@@ -64,12 +65,18 @@ Proof.
     + exact B7.
     + cbn [flat_map app]. rewrite app_nil_r. exact ND.
     + intro t. apply (B11 t).
-    + intros t Hn _. unfold hnd. change (s_toks sf) with (s_toks s1). rewrite B12 by assumption. reflexivity.
+    + intros t Hn _. apply hnd_ext_tget; [exact B13|]. change (s_toks sf) with (s_toks s1). apply B12; assumption.
     + intros t _ [].
     + intros b Hb _. destruct (B9 b Hb) as [Hne Hok]. split; [exact Hok|]. intro Ee. contradiction.
     + split; [reflexivity|]. cbn [flat_map app] in Ea'. rewrite app_nil_r in Ea'.
       split; [split; [exact I'|rewrite Ea'; reflexivity]|]. split; [exact Ea'|].
-      intro t. apply (proj2 (B11 t)).
+      split; [intro t; apply (proj2 (B11 t))|]. split; [exact B13|].
+      intros t (sd & b & j & R & N). change (raw sf t) with (raw s1 t) in R. change (s_id sf) with (s_id s1) in N.
+      destruct (in_dec Pos.eq_dec t ts) as [Hin|Hin].
+      * rewrite <- Ea' in Hin. apply In_nth_error in Hin as [k Hk].
+        destruct (locate_inv sf k t I' Hk) as (_ & b' & j' & _ & _ & _ & Hh' & _). apply hnd_raw in Hh'.
+        change (raw sf t) with (raw s1 t) in Hh'. change (s_id sf) with (s_id s1) in Hh'. congruence.
+      * unfold raw in R. rewrite (B12 t Hin) in R. cbn in R. rewrite Hh in R. discriminate.
 Qed.
 
 (* ---------- the list reference for operation histories ---------- *)
@@ -109,6 +116,15 @@ Definition ref_text (f : positive -> str) (o : sop) : positive -> str :=
   | _ => f
   end.
 
+(* inserted tokens, on the list only: fresh for the list, or inside the removed range *)
+Definition valid_list (l tokens : list positive) (p q : nat) : Prop :=
+  NoDup tokens /\ forall t, In t tokens -> ~ In t l \/ In t (firstn (q - p) (skipn p l)).
+
+Lemma valid_list_tokens s tokens p q : Inv s -> pure s -> valid_list (abs s) tokens p q -> valid_tokens s tokens p q.
+Proof.
+  intros II Hp [ND H]. split; [exact ND|]. intros t Ht. destruct (H t Ht) as [Hn|?]; [left; apply pure_free; assumption|right; assumption].
+Qed.
+
 (* the contract of each operation, stated on the plain list only *)
 Definition op_valid (l : list positive) (o : sop) : Prop :=
   match o with
@@ -120,7 +136,7 @@ Definition op_valid (l : list positive) (o : sop) : Prop :=
       let p := before_pos l r in
       let q := match d with None => p | Some d0 => S (pidx (P d0) l) end in
       ref_in l r /\ ref_in l d /\ match d with None => True | Some _ => (p < q)%nat end /\
-      valid_tokens l (map P ts) p q
+      valid_list l (map P ts) p q
   | ORemove a b => In (P a) l /\ match b with None => True | Some b0 => In (P b0) l /\ (pidx (P a) l <= pidx (P b0) l)%nat end
   | OReplace t r => In (P t) l /\ (P r = P t \/ ~ In (P r) l)
   | OSetText _ _ => True
@@ -129,33 +145,59 @@ Definition op_valid (l : list positive) (o : sop) : Prop :=
 Fixpoint ops_valid (l : list positive) (ops : list sop) : Prop :=
   match ops with [] => True | o :: r => op_valid l o /\ ops_valid (ref_step l o) r end.
 
-Lemma step_refines LF s o s' r : 1 <= LF -> Inv s -> op_valid (abs s) o -> step LF s o = (s', r) ->
-  r = Ok tt /\ Inv s' /\ abs s' = ref_step (abs s) o /\ (forall t, txt s' t = ref_text (txt s) o t).
+Lemma set_text_pure s t x s' r : set_text s t x = (s', r) -> pure s -> pure s'.
 Proof.
-  intros HLF II Hv H. destruct o as [|ts|rf ts|rf ts|ts rf d|a b|t r0|t x]; cbn [step op_valid ref_step ref_text] in *.
+  intros H Hp u (sd & b & j & R & N). destruct (set_text_raw s t x) as [Eid Er]. rewrite H in Eid, Er. cbn [fst] in Eid, Er.
+  apply (Hp u). exists sd, b, j. rewrite <- Er, <- Eid. auto.
+Qed.
+
+Lemma step_refines LF s o s' r : 1 <= LF -> Inv s -> pure s -> op_valid (abs s) o -> step LF s o = (s', r) ->
+  r = Ok tt /\ Inv s' /\ abs s' = ref_step (abs s) o /\ (forall t, txt s' t = ref_text (txt s) o t) /\ pure s'.
+Proof.
+  intros HLF II Hp Hv H. destruct o as [|ts|rf ts|rf ts|ts rf d|a b|t r0|t x]; cbn [step op_valid ref_step ref_text] in *.
   - (* TokenStore() *)
-    injection H as <- <-. destruct (empty_inv (s_toks s) (inv_empty_clean s II Hv)) as [I' E']. auto.
+    injection H as <- <-. pose proof (inv_empty_clean s II Hp Hv) as Hc.
+    destruct (empty_inv (Pos.succ (s_id s)) (s_toks s) Hc) as [I' E']. pose proof (clean_pure (Pos.succ (s_id s)) _ Hc). auto.
   - destruct Hv as [El ND].
-    destruct (from_tokens LF (s_toks s) (map P ts)) as [s1 r1] eqn:EF.
-    destruct (from_tokens_spec LF _ _ _ _ HLF (inv_empty_clean s II El) ND EF) as (-> & I' & E' & T').
+    destruct (from_tokens LF (Pos.succ (s_id s)) (s_toks s) (map P ts)) as [s1 r1] eqn:EF.
+    destruct (from_tokens_spec LF _ _ _ _ _ HLF (inv_empty_clean s II Hp El) ND EF) as (-> & I' & E' & T' & _ & P').
     injection H as <- <-. auto.
   - destruct Hv as (Hr & ND & Hf).
-    apply (insert_after_spec LF s (map P ts) (PO rf) (after_pos (abs s) rf) s' r HLF II); [|exact ND|exact Hf|exact H].
-    destruct rf as [r1|]; cbn in *; [|reflexivity]. split; [lia|]. rewrite Nat.sub_0_r. apply pidx_nth; exact Hr.
+    destruct (insert_after_spec LF s (map P ts) (PO rf) (after_pos (abs s) rf) s' r HLF II) as (-> & I' & Ea & Ht & Fr);
+      [|exact ND|intros u Hu; apply pure_free; auto|exact H|].
+    + destruct rf as [r1|]; cbn in *; [|reflexivity]. split; [lia|]. rewrite Nat.sub_0_r. apply pidx_nth; exact Hr.
+    + split; [reflexivity|]. split; [exact I'|]. split; [exact Ea|]. split; [exact Ht|].
+      apply (frames_pure s s' (map P ts) _ _ II I' (le_n _) Ea Fr Hp).
   - destruct Hv as (Hr & ND & Hf).
-    apply (insert_before_spec LF s (map P ts) (PO rf) (before_pos (abs s) rf) s' r HLF II); [|exact ND|exact Hf|exact H].
-    destruct rf as [r1|]; cbn in *; [apply pidx_nth; exact Hr|reflexivity].
+    destruct (insert_before_spec LF s (map P ts) (PO rf) (before_pos (abs s) rf) s' r HLF II) as (-> & I' & Ea & Ht & Fr);
+      [|exact ND|intros u Hu; apply pure_free; auto|exact H|].
+    + destruct rf as [r1|]; cbn in *; [apply pidx_nth; exact Hr|reflexivity].
+    + split; [reflexivity|]. split; [exact I'|]. split; [exact Ea|]. split; [exact Ht|].
+      apply (frames_pure s s' (map P ts) _ _ II I' (le_n _) Ea Fr Hp).
   - destruct Hv as (Hr & Hd & Hlt & Hvt).
-    apply (splice_spec LF s (map P ts) (PO rf) (PO d) _ _ s' r HLF II); [| |exact Hvt|exact H].
+    destruct (splice_spec LF s (map P ts) (PO rf) (PO d) (before_pos (abs s) rf)
+                (match d with None => before_pos (abs s) rf | Some d0 => S (pidx (P d0) (abs s)) end) s' r HLF II)
+      as (-> & I' & Ea & Ht & Fr); [| |apply valid_list_tokens; assumption|exact H|].
     + destruct rf as [r1|]; cbn in *; [apply pidx_nth; exact Hr|reflexivity].
     + destruct d as [d0|]; cbn in *; [|reflexivity]. split; [exact Hlt|]. rewrite Nat.sub_0_r. apply pidx_nth; exact Hd.
+    + split; [reflexivity|]. split; [exact I'|]. split; [exact Ea|]. split; [exact Ht|].
+      apply (frames_pure s s' (map P ts) (before_pos (abs s) rf)
+               (match d with None => before_pos (abs s) rf | Some d0 => S (pidx (P d0) (abs s)) end) II I'); [destruct d; lia|exact Ea|exact Fr|exact Hp].
   - destruct Hv as [Ha Hb].
-    apply (remove_spec LF s (P a) (PO b) _ _ s' r HLF II (pidx_nth _ _ Ha)); [|exact H].
-    destruct b as [b0|]; cbn in *; [destruct Hb; split; [assumption|apply pidx_nth; assumption]|reflexivity].
+    destruct (remove_spec LF s (P a) (PO b) (pidx (P a) (abs s))
+                (match b with None => pidx (P a) (abs s) | Some b0 => pidx (P b0) (abs s) end) s' r HLF II (pidx_nth _ _ Ha))
+      as (-> & I' & Ea & Ht & Fr); [|exact H|].
+    + destruct b as [b0|]; cbn in *; [destruct Hb; split; [assumption|apply pidx_nth; assumption]|reflexivity].
+    + split; [reflexivity|]. split; [exact I'|]. split; [exact Ea|]. split; [exact Ht|].
+      apply (frames_pure s s' [] (pidx (P a) (abs s))
+               (S (match b with None => pidx (P a) (abs s) | Some b0 => pidx (P b0) (abs s) end)) II I'); [destruct b as [b0|]; [destruct Hb; lia|lia]|exact Ea|exact Fr|exact Hp].
   - destruct Hv as [Ht Hr].
-    apply (replace_spec LF s (P t) (P r0) _ s' r HLF II (pidx_nth _ _ Ht) Hr H).
+    destruct (replace_spec LF s (P t) (P r0) (pidx (P t) (abs s)) s' r HLF II (pidx_nth _ _ Ht)) as (-> & I' & Ea & Htx & Fr);
+      [destruct Hr as [?|Hn]; [left; assumption|right; apply pure_free; assumption]|exact H|].
+    split; [reflexivity|]. split; [exact I'|]. split; [exact Ea|]. split; [exact Htx|].
+    apply (frames_pure s s' [P r0] (pidx (P t) (abs s)) (S (pidx (P t) (abs s))) II I'); [lia|exact Ea|exact Fr|exact Hp].
   - destruct (set_text_spec s (P t) x s' r II H) as (-> & I' & Ea & _ & Tt & To).
-    split; [reflexivity|]. split; [exact I'|]. split; [exact Ea|].
+    split; [reflexivity|]. split; [exact I'|]. split; [exact Ea|]. split; [|apply (set_text_pure _ _ _ _ _ H Hp)].
     intro u. destruct (Pos.eqb_spec u (P t)) as [->|N]; [exact Tt|apply To; assumption].
 Qed.
 
@@ -163,14 +205,14 @@ Qed.
 Inductive good_run (LF : Z) : store -> list sop -> Prop :=
 | gr_nil s : good_run LF s []
 | gr_cons s o r s' :
-    step LF s o = (s', Ok tt) -> Inv s' -> abs s' = ref_step (abs s) o ->
+    step LF s o = (s', Ok tt) -> Inv s' -> pure s' -> abs s' = ref_step (abs s) o ->
     (forall t, txt s' t = ref_text (txt s) o t) ->
     good_run LF s' r -> good_run LF s (o :: r).
 
-Theorem history_refines LF : 1 <= LF -> forall ops s, Inv s -> ops_valid (abs s) ops -> good_run LF s ops.
+Theorem history_refines LF : 1 <= LF -> forall ops s, Inv s -> pure s -> ops_valid (abs s) ops -> good_run LF s ops.
 Proof.
-  intro HLF. induction ops as [|o r IH]; intros s II Hv; [constructor|]. destruct Hv as [Hv Hr].
+  intro HLF. induction ops as [|o r IH]; intros s II Hp Hv; [constructor|]. destruct Hv as [Hv Hr].
   destruct (step LF s o) as [s' rr] eqn:ES.
-  destruct (step_refines LF s o s' rr HLF II Hv ES) as (-> & I' & Ea & Ht).
-  apply (gr_cons LF s o r s' ES I' Ea Ht). apply IH; [exact I'|]. rewrite Ea. exact Hr.
+  destruct (step_refines LF s o s' rr HLF II Hp Hv ES) as (-> & I' & Ea & Ht & Hp').
+  apply (gr_cons LF s o r s' ES I' Hp' Ea Ht). apply IH; [exact I'|exact Hp'|]. rewrite Ea. exact Hr.
 Qed.
